@@ -182,6 +182,53 @@ class PlannerReach:
                             todo.append(k)
         return d
 
+    def reach_direct(self, start: UnitV, end: UnitV) -> bool:
+        """Over-approximation of `_find_path_recursive(start, end)` finding a path: plain reachability in the search's state
+        graph (current unit, current end), where a state is first reduced to the common root `_reduce_dimension` takes (the
+        gcd of the start's dimension exponents, when both units have that root) and then left along `_ratios[start]`.  The
+        shared visited set of the real search can only lose paths, never add one."""
+        from math import gcd
+        seen: Set[Tuple[int, int]] = set()
+        todo = [(start.uid, end.uid)]
+        while todo:
+            s, e = todo.pop()
+            if (s, e) in seen:
+                continue
+            seen.add((s, e))
+            if s == e:
+                return True
+            us, ue = self.unit(s), self.unit(e)
+            exps = [abs(x) for x in us.dimension.exps.values()]
+            g = 0
+            for x in exps:
+                g = gcd(g, x)
+            if g > 1:
+                rs, re_ = self.ev.unit_root(us, g), self.ev.unit_root(ue, g)
+                if rs is not None and re_ is not None:
+                    us, ue = rs, re_
+                    if us.uid == ue.uid:
+                        return True
+            for i in self.adj.get(us.uid, ()):
+                if i == ue.uid:
+                    return True
+                todo.append((i, ue.uid))
+        return False
+
+    def may_convert_from(self, target: UnitV, u: UnitV) -> Tuple[bool, str]:
+        """The other direction: from the coherent SI unit *to* u.  The target is a product of SI base units (nothing to
+        decompose, F2), so unless u itself is decomposed through a compound equivalence of its own, the plan needs a path
+        from the target (the matched product of its factors) to u - and the search is not symmetric: it takes the common
+        root only when the unit it stands on is a perfect power, so m^2 never gets to ft^2 -> acre unless it may start by
+        reducing to m -> ft against an end that has a root too."""
+        if u.uid == target.uid:
+            return True, "is the target"
+        if self.decomposable(u):
+            return True, "decomposed through its own compound equivalence"
+        if self.reach_direct(target, u):
+            return True, "path from the target"
+        return False, (f"the path search from {target!r} never arrives at it: every declared equivalence of {u.name!r} leads to units the search "
+                       "only reaches after taking a root, and it takes roots only when both ends have one")
+
     def may_convert(self, u: UnitV, target: UnitV) -> Tuple[bool, str]:
         if u.uid == target.uid:
             return True, "is the target"
